@@ -1,5 +1,6 @@
 // Deterministic simulation kernel (see kernel.h, DESIGN.md section 2).
 #include "kernel.h"
+#include <signal.h>
 
 #include <errno.h>
 #include <linux/futex.h>
@@ -317,6 +318,60 @@ void
 set_result_fd(int fd)
 {
     K.result_fd = fd;
+}
+
+// A run that dies of a sanitizer report or a signal still hands over the
+// schedule it realised, so that the crash can be replayed (the crash text
+// itself travels on stderr).
+static void
+crash_emit()
+{
+    static volatile int once;
+    if (once || K.result_fd < 0 || !K.active)
+        return;
+    once = 1;
+    std::string out;
+    char b[128];
+    snprintf(b, sizeof(b), "K %016llx %llu %llu\nS",
+             (unsigned long long)K.fp, (unsigned long long)K.step,
+             (unsigned long long)K.now);
+    out += b;
+    for (auto& e : K.recorded) {
+        snprintf(b, sizeof(b), " %llu:%d:%lld", (unsigned long long)e.step,
+                 e.kind, (long long)e.a);
+        out += b;
+    }
+    out += "\n";
+    write_all(K.result_fd, out);
+}
+
+static void
+crash_signal(int sig)
+{
+    crash_emit();
+    signal(sig, SIG_DFL);
+    raise(sig);
+}
+
+extern "C" void
+__sanitizer_set_death_callback(void (*cb)(void)) __attribute__((weak));
+
+static void
+install_crash_hooks()
+{
+    static bool done;
+    if (done)
+        return;
+    done = true;
+    if (__sanitizer_set_death_callback)
+        __sanitizer_set_death_callback(crash_emit);
+    else {
+        signal(SIGSEGV, crash_signal);
+        signal(SIGBUS, crash_signal);
+        signal(SIGFPE, crash_signal);
+        signal(SIGILL, crash_signal);
+        signal(SIGABRT, crash_signal);
+    }
 }
 
 [[noreturn]] static void
@@ -1003,6 +1058,7 @@ begin_run(const SchedConfig& cfg)
 {
     if (!K.budget_fail)
         K.budget_fail = default_fail;
+    install_crash_hooks();
     // reap threads of a previous run in this process (micro-run batching)
     for (Thread* t : K.threads) {
         if (t->has_real && !t->real_joined && t->state == T_DONE)
